@@ -5,10 +5,11 @@
 // `put` cases run the real putReplicas goroutines against a scripted HTTPClient. Every request
 // blocks inside Do until the controller releases it. The controller learns that the main loop of
 // putReplicas is about to wait for an answer (and how many uploads are in flight) from the
-// "Replicas remaining to write" debug message, waits until that many requests have arrived, and
-// releases the in-flight request with the (pick mod n)-th smallest service number. If the debug
-// message is not seen (it was reworded or removed) the controller falls back to waiting for
-// quiescence, so the driver keeps working, only slower.
+// "Replicas remaining to write: %v active uploads: %v" debug message (recognised by its argument
+// shape, so rewording it is harmless), waits until that many requests have arrived, and releases
+// the in-flight request with the (pick mod n)-th smallest service number. If no such message is
+// seen (it was removed) the controller falls back to waiting for quiescence, so the driver keeps
+// working, only slower.
 package keepclient
 
 import (
@@ -150,6 +151,7 @@ type verifC11Ctl struct {
 	changed  chan struct{} // signalled (non-blocking) on every arrival
 	events   chan int      // "active" value of each "Replicas remaining" message
 	unknown  int           // requests to hosts that are not in the case
+	reqid    string        // RequestID of this case's client: debug messages of other cases are ignored
 }
 
 var verifC11Current atomic.Value // *verifC11Ctl of the running case
@@ -160,14 +162,21 @@ func verifC11Debugf(format string, args ...interface{}) {
 	}
 }
 
+// debugf recognises the message putReplicas prints between starting uploads and waiting for an
+// answer, by its text or by the shape of its arguments (request id, replicasTodo, active).
 func (c *verifC11Ctl) debugf(format string, args ...interface{}) {
-	if strings.Contains(format, "Replicas remaining") && len(args) == 3 {
-		if a, ok := args[2].(int); ok {
-			select {
-			case c.events <- a:
-			default:
-			}
-		}
+	if len(args) != 3 {
+		return
+	}
+	id, ok0 := args[0].(string)
+	_, ok1 := args[1].(int)
+	a, ok2 := args[2].(int)
+	if !ok0 || !ok1 || !ok2 || id != c.reqid {
+		return
+	}
+	select {
+	case c.events <- a:
+	default:
 	}
 }
 
@@ -235,8 +244,10 @@ func (c *verifC11Ctl) nInflight() int {
 	return len(c.inflight)
 }
 
-// waitInflight waits until n requests are parked.
-func (c *verifC11Ctl) waitInflight(n int, deadline time.Time) bool {
+// waitInflight waits until n requests are parked. The limit is counted in 20 ms timer ticks, not
+// read from the clock: the sandbox clock can jump (VM pause), and a jump must not look like a hang.
+func (c *verifC11Ctl) waitInflight(n int, limit time.Duration) bool {
+	ticks := 0
 	for {
 		if c.nInflight() >= n {
 			return true
@@ -244,7 +255,8 @@ func (c *verifC11Ctl) waitInflight(n int, deadline time.Time) bool {
 		select {
 		case <-c.changed:
 		case <-time.After(20 * time.Millisecond):
-			if time.Now().After(deadline) {
+			ticks++
+			if time.Duration(ticks)*20*time.Millisecond > limit {
 				return false
 			}
 		}
@@ -311,7 +323,28 @@ type verifC11PutResult struct {
 	err error
 }
 
+var verifC11Seq int64
+var verifC11Hangs int
+
+// verifC11Put runs one put case. A case that does not finish in time is run once more with a
+// longer limit before it is reported as a hang (a starved machine must not look like a deadlock);
+// after three hangs in this process the limit is 1 s and there is no second try.
 func verifC11Put(f []string) string {
+	limit := 30 * time.Second
+	if verifC11Hangs >= 3 {
+		limit = 1 * time.Second
+	}
+	out := verifC11PutOnce(f, limit)
+	if strings.HasPrefix(out, "hang") {
+		verifC11Hangs++
+		if verifC11Hangs <= 3 {
+			out = verifC11PutOnce(f, 90*time.Second)
+		}
+	}
+	return out
+}
+
+func verifC11PutOnce(f []string, limit time.Duration) string {
 	entry := f[1]
 	want, err1 := strconv.Atoi(f[2])
 	retries, err2 := strconv.Atoi(f[3])
@@ -333,6 +366,7 @@ func verifC11Put(f []string) string {
 		changed:  make(chan struct{}, 1),
 		events:   make(chan int, 4096),
 		lastArr:  time.Now(),
+		reqid:    fmt.Sprintf("req-verif-%d", atomic.AddInt64(&verifC11Seq, 1)),
 	}
 	var list svcList
 	if f[6] != "-" {
@@ -378,7 +412,7 @@ func verifC11Put(f []string) string {
 		Want_replicas: want,
 		Retries:       retries,
 		HTTPClient:    ctl,
-		RequestID:     "req-verif",
+		RequestID:     ctl.reqid,
 	}
 	kc.disableDiscovery = true
 	if err := kc.loadKeepServers(list); err != nil {
@@ -421,7 +455,7 @@ func verifC11Put(f []string) string {
 
 	var processed []string
 	var res verifC11PutResult
-	deadline := time.Now().Add(20 * time.Second)
+	idleTicks := 0 // consecutive 150 ms waits without any progress (not clock based, see waitInflight)
 	pi := 0
 	expect := 0 // uploads believed to be in flight
 	sawEvent := false
@@ -434,9 +468,11 @@ loop:
 			sawEvent = true
 			expect = a
 			if a == 0 {
+				idleTicks = 0
 				continue
 			}
-			if !ctl.waitInflight(a, deadline) {
+			idleTicks = 0
+			if !ctl.waitInflight(a, limit) {
 				ctl.releaseAll()
 				return "hang waiting-for-requests " + verifC11Join(processed)
 			}
@@ -448,11 +484,16 @@ loop:
 			processed = append(processed, ctl.releasePick(pick))
 			expect = a - 1
 		case <-time.After(150 * time.Millisecond):
-			if time.Now().After(deadline) {
+			idleTicks++
+			if time.Duration(idleTicks)*150*time.Millisecond > limit {
+				msg := fmt.Sprintf("hang inflight=%d sawEvent=%v expect=%d processed=%s", ctl.nInflight(), sawEvent, expect, verifC11Join(processed))
 				ctl.releaseAll()
-				return "hang " + verifC11Join(processed)
+				return msg
 			}
 			// fallback without debug events: release when nothing has arrived for a while
+			if len(ctl.events) > 0 {
+				continue
+			}
 			if !sawEvent && ctl.nInflight() > 0 && ctl.quiescent(100*time.Millisecond) {
 				pick := 0
 				if pi < len(picks) {
@@ -460,12 +501,13 @@ loop:
 				}
 				pi++
 				processed = append(processed, ctl.releasePick(pick))
+				idleTicks = 0
 			}
 		}
 	}
 	// uploads that putReplicas abandoned: wait for them to arrive, then let them finish
 	if sawEvent {
-		ctl.waitInflight(expect, time.Now().Add(5*time.Second))
+		ctl.waitInflight(expect, 10*time.Second)
 	} else {
 		for i := 0; i < 50 && !ctl.quiescent(100*time.Millisecond); i++ {
 			time.Sleep(20 * time.Millisecond)
@@ -530,16 +572,18 @@ func verifC11Upl(f []string) string {
 	}
 	ch := make(chan uploadStatus, 1)
 	go kc.uploadToKeepServer("http://h0.example:25107", "acbd18db4cc2f85cedef654fccc4a4d8", bytes.NewReader([]byte("foo")), ch, 3, "req-verif")
-	select {
-	case st := <-ch:
-		resp := "-"
-		if st.statusCode == 200 {
-			resp = verifC11Hex(st.response)
+	for ticks := 0; ticks < 1500; ticks++ { // tick based, not clock based (see waitInflight)
+		select {
+		case st := <-ch:
+			resp := "-"
+			if st.statusCode == 200 {
+				resp = verifC11Hex(st.response)
+			}
+			return fmt.Sprintf("%d %d %s", st.statusCode, st.replicasStored, resp)
+		case <-time.After(20 * time.Millisecond):
 		}
-		return fmt.Sprintf("%d %d %s", st.statusCode, st.replicasStored, resp)
-	case <-time.After(10 * time.Second):
-		return "hang"
 	}
+	return "hang"
 }
 
 func verifC11ShowMap(m map[string]string) string {
